@@ -136,6 +136,44 @@ VARIANTS = {
 _built = {}
 
 
+def repo_root():
+    return os.path.abspath(_ALT_REPO) if _ALT_REPO else "/repo"
+
+
+def _c_fingerprint():
+    """sha1 over feel-number/build.rs and every file under feel-number/decnumber (names and contents)."""
+    import hashlib
+
+    h = hashlib.sha1()
+    base = os.path.join(repo_root(), "feel-number")
+    files = [os.path.join(base, "build.rs")]
+    for root, dirs, names in os.walk(os.path.join(base, "decnumber")):
+        dirs.sort()
+        files += [os.path.join(root, n) for n in sorted(names)]
+    for f in files:
+        h.update(os.path.relpath(f, base).encode() + b"\0")
+        try:
+            with open(f, "rb") as fh:
+                h.update(fh.read())
+        except OSError:
+            h.update(b"<missing>")
+        h.update(b"\0")
+    return h.hexdigest()
+
+
+def _drop_build_script_output(tdir, package):
+    """Removes the build-script run of `package` (its out dir and fingerprints) from a target dir, every profile / triple."""
+    for root, dirs, _files in os.walk(tdir):
+        base = os.path.basename(root)
+        if base in ("build", ".fingerprint"):
+            for d in list(dirs):
+                if d.startswith(package + "-"):
+                    shutil.rmtree(os.path.join(root, d), ignore_errors=True)
+            dirs[:] = []
+        elif base in ("deps", "incremental", "examples"):
+            dirs[:] = []
+
+
 def build(variant, quiet=True):
     """Builds (incrementally) the driver variant from /repo's current working tree; returns the binary path."""
     if variant in _built:
@@ -146,11 +184,27 @@ def build(variant, quiet=True):
     env = _env_base()
     env.update(spec["env"])
     lock_path = os.path.join(TARGET, spec.get("dir", variant) + ".lock")
+    stamp_path = os.path.join(TARGET, spec.get("dir", variant) + ".csrc")
     t0 = time.time()
     with open(lock_path, "w") as lock:
         fcntl.flock(lock, fcntl.LOCK_EX)
+        # The decNumber C sources are compiled by feel-number/build.rs through the cc crate, which prints
+        # rerun-if-env-changed lines; with such lines cargo no longer re-runs a build script because a file of
+        # the package changed, so an edited .c / .h file would leave the old static library in place. "Checks
+        # rebuild from /repo's current working tree" has to hold for the C code too: the sources are
+        # fingerprinted here and the build-script output is discarded when they differ from what was built.
+        want = _c_fingerprint()
+        try:
+            have = open(stamp_path).read().strip()
+        except OSError:
+            have = None
+        if have != want:
+            _drop_build_script_output(tdir, "dmntk-feel-number")
         cmd = spec["cmd"] + ["--target-dir", tdir]
         p = subprocess.run(cmd, cwd=HARNESS, env=env, stdout=subprocess.PIPE, stderr=subprocess.STDOUT, text=True)
+        if p.returncode == 0:
+            with open(stamp_path, "w") as fh:
+                fh.write(want)
         fcntl.flock(lock, fcntl.LOCK_UN)
     if p.returncode != 0:
         tail = "\n".join(p.stdout.splitlines()[-40:])
